@@ -13,8 +13,9 @@ run alone (sequentially) from the initial memory.
 
 The second half of the file is the write-set table of kyber's read-only method set: for each
 (implementation, method) the class of locations it writes. `pure`/`fresh` entries instantiate the
-theorem; `sharedWrite` entries are methods that write memory reachable from a shared operand (they are
-outside the theorem's hypothesis, and the race detector is expected to report them: C20 findings).
+theorem; a `sharedWrite` entry would be a method that writes memory reachable from a shared operand
+(outside the theorem's hypothesis; the race detector reports such methods — the two C20 findings,
+edwards25519vartime `normalize()` and kilic `Pair`, were of this kind until they were fixed).
 Core-only: the driver prints the table for the harness (`effects table`).
 -/
 namespace Kyber.Effects
@@ -123,8 +124,9 @@ def cleanPointImpls : List String :=
   ["ed25519", "ed25519-allowvt", "p256", "qr512", "bn256-g1", "bn256-g2", "bn256-gt", "bn254-g1", "bn254-g2", "bn254-gt",
    "kilic-g1", "kilic-g2", "kilic-gt", "circl-g1", "circl-g2", "circl-gt", "gnark-g1", "gnark-g2", "gnark-gt"]
 
-/-- `edwards25519vartime`: `MarshalBinary`, `MarshalTo`, `String`, `Data`, `Equal` (ext) call
-    `normalize()`, which rewrites X, Y, Z (and T) of the receiver in place. -/
+/-- `edwards25519vartime`: `MarshalBinary`, `MarshalTo`, `String`, `Data` used to call `normalize()`,
+    which rewrote X, Y, Z (and T) of the receiver in place (C20 finding, fixed by /repo 65997e5: they now
+    normalise a copy, so the entries are `fresh`). -/
 def vartimeImpls : List String := ["ed25519vt-proj", "ed25519vt-ext"]
 
 def vartimeNormalising : List String := ["MarshalBinary", "MarshalTo", "String", "Data"]
@@ -136,7 +138,7 @@ def table : List Entry :=
       e i ("Point." ++ m) (if m = "MarshalSize" then .pure else .fresh)) ++
   (vartimeImpls.flatMap fun i => pointMethods.map fun m =>
       if vartimeNormalising.contains m then
-        e i ("Point." ++ m) .sharedWrite "normalize() rewrites the receiver's coordinates in place"
+        e i ("Point." ++ m) .fresh "works on a normalised copy (before 65997e5: normalize() rewrote the receiver)"
       else e i ("Point." ++ m) (if m = "MarshalSize" then .pure else .fresh)) ++
   (scalarImpls.flatMap fun i => scalarMethods.map fun m => e i ("Scalar." ++ m) .fresh) ++
   [ e "suite" "Point/Scalar constructors" .fresh,
@@ -147,7 +149,7 @@ def table : List Entry :=
     e "pairing-bn256" "ValidatePairing" .fresh,
     e "pairing-bn254" "Pair" .fresh,
     e "pairing-bn254" "ValidatePairing" .fresh,
-    e "pairing-kilic" "Pair" .sharedWrite "Engine.AddPair converts the operands to affine in place; Pair passes the shared points themselves",
+    e "pairing-kilic" "Pair" .fresh "clones its operands (before 2887bba: Engine.AddPair made the shared points affine in place)",
     e "pairing-kilic" "ValidatePairing" .fresh "clones its operands (kilic/bls12-381 issue 37)",
     e "pairing-circl" "Pair" .fresh,
     e "pairing-circl" "ValidatePairing" .fresh,
